@@ -348,6 +348,175 @@ Fixpoint run_cached (W : world) (st : cstate) (reqs : list request) : list outco
   | r :: rest => let '(o, st') := step W st r in o :: run_cached W st' rest
   end.
 
+(* ---------- the caller's objects: histories with in-place mutation (round 4) ----------
+   compute_fixed_resolution_buffer receives OBJECTS: the `bounds` list and the subset state are the caller's, and the
+   caller may re-use one object for many requests and change it in place between them.  A cache key is therefore either a
+   private value (a snapshot taken when the entry is stored) or a reference to the caller's object, which is read again
+   - with whatever it contains by then - every time the key is compared.
+     heap      : the caller's bounds lists (address -> content) and subset-state objects (address -> which mask of the
+                 source dataset the state selects at the moment);
+     bkey      : the bounds part of a key: KVal = the list built by bounds_for_cache (fresh list of immutable items),
+                 KRef a = the caller's list object a itself;
+     wkey      : the attribute / selection part: WKVal = a value (target_cid.uuid is a string; or a snapshot of the
+                 selection), WKRef a = the subset-state object a (compared by identity);
+     policy    : which of the two an implementation stores.  glue_policy is compute_fixed_resolution_buffer as it is:
+                 bounds_for_cache always builds a new list, the subset state is stored as the object. *)
+Record heap := mkHeap { hb : nat -> list bound; hs : nat -> nat }.
+Inductive bkey := KVal (cbs : list cbound) | KRef (a : nat).
+Inductive wkey := WKVal (w : what) | WKRef (a : nat).
+Inductive hwhat := HNone | HAttr (k : nat) | HState (a : nat) | HBoth (k a : nat).
+Record hrequest := mkHReq { hr_s : nat; hr_t : nat; hr_b : nat; hr_w : hwhat; hr_bc : bool; hr_cache : option nat }.
+Inductive hop :=
+  | HSetBound (a i : nat) (b : bound)        (* bounds_a[i] = b *)
+  | HSetAll (a : nat) (bs : list bound)      (* bounds_a[:] = bs *)
+  | HSetState (a k : nat)                    (* the subset-state object a is changed in place and now selects mask k *)
+  | HReq (r : hrequest).
+
+Record policy := mkPol { pol_bref : list bound -> bool;     (* bounds -> is the caller's list itself kept as the key? *)
+                         pol_sref : bool }.                 (* is the subset state kept as the object? *)
+Definition glue_policy : policy := mkPol (fun _ => false) true.
+Definition snapshot_policy : policy := mkPol (fun _ => false) false.
+(* "if all the bounds are ranges the bounds can be used as they are" *)
+Definition return_bounds_policy : policy := mkPol (fun bs => negb (existsb is_scalar bs)) true.
+
+Definition resolve_what (H : heap) (w : hwhat) : what :=
+  match w with HNone => WNone | HAttr k => WAttr k | HState a => WMask (hs H a) | HBoth k a => WBoth k (hs H a) end.
+(* the request as a value: what the objects contain when the call is made *)
+Definition resolve (H : heap) (r : hrequest) : request :=
+  mkReq (hr_s r) (hr_t r) (hb H (hr_b r)) (resolve_what H (hr_w r)) (hr_bc r) (hr_cache r).
+
+Fixpoint set_nth {A} (i : nat) (x : A) (l : list A) : list A :=
+  match l, i with
+  | [], _ => []
+  | _ :: r, O => x :: r
+  | y :: r, S i' => y :: set_nth i' x r
+  end.
+Definition set_bounds (H : heap) (a : nat) (bs : list bound) : heap :=
+  mkHeap (fun x => if Nat.eqb x a then bs else hb H x) (hs H).
+Definition set_state (H : heap) (a k : nat) : heap :=
+  mkHeap (hb H) (fun x => if Nat.eqb x a then k else hs H x).
+
+(* a stored key is read when it is compared *)
+Definition deref_b (H : heap) (k : bkey) : list cbound :=
+  match k with KVal cbs => cbs | KRef a => map CB (map norm_bound (hb H a)) end.
+Definition mk_bkey (P : policy) (a : nat) (bs : list bound) (dimensions : list nat) : bkey :=
+  if pol_bref P bs then KRef a else KVal (bounds_for_cache bs dimensions).
+Definition mk_wkey (P : policy) (H : heap) (w : hwhat) : wkey :=
+  match w with
+  | HState a => if pol_sref P then WKRef a else WKVal (WMask (hs H a))
+  | _ => WKVal (resolve_what H w)
+  end.
+Definition wkey_match (H : heap) (k : wkey) (w : hwhat) : bool :=
+  match k with
+  | WKVal w0 => what_eqb w0 (resolve_what H w)
+  | WKRef a => match w with HState a' => Nat.eqb a a' | _ => false end
+  end.
+
+Record haentry := mkHA { ha_s : nat; ha_key : bkey; ha_t : nat; ha_w : wkey; ha_bc : bool; ha_shape : list nat; ha_vals : list (option Z) }.
+Record hpentry := mkHP { hp_s : nat; hp_t : nat; hp_items : list (nat * (triple * bkey)) }.
+Definition hcstate := nat -> option haentry * option hpentry.
+Definition empty_hstate : hcstate := fun _ => (None, None).
+Definition hupd (st : hcstate) (cid : nat) (v : option haentry * option hpentry) : hcstate :=
+  fun k => if Nat.eqb k cid then v else st k.
+
+Definition harray_hit (H : heap) (ae : option haentry) (s t : nat) (w : hwhat) (bc : bool) (bs : list bound) : option (list nat * list (option Z)) :=
+  match ae with
+  | Some a =>
+    if Nat.eqb (ha_s a) s && cbs_match (deref_b H (ha_key a)) bs && Nat.eqb (ha_t a) t && wkey_match H (ha_w a) w && Bool.eqb (ha_bc a) bc
+    then Some (ha_shape a, ha_vals a) else None
+  | None => None
+  end.
+
+Definition hlookup_item (i : nat) (items : list (nat * (triple * bkey))) : option (triple * bkey) :=
+  match find (fun it => Nat.eqb (fst it) i) items with Some it => Some (snd it) | None => None end.
+
+Definition hpixel_hit (H : heap) (pe : option hpentry) (i : nat) (bs : list bound) : option triple :=
+  match pe with
+  | Some p => match hlookup_item i (hp_items p) with
+              | Some (tr, k) => if cbs_match (deref_b H k) bs then Some tr else None
+              | None => None
+              end
+  | None => None
+  end.
+
+Definition hpixel_store (pe : option hpentry) (s t i : nat) (tr : triple) (k : bkey) : option hpentry :=
+  match pe with
+  | Some p => Some (mkHP (hp_s p) (hp_t p) ((i, (tr, k)) :: hp_items p))
+  | None => Some (mkHP s t [(i, (tr, k))])
+  end.
+
+Fixpoint hpix_loop (P : policy) (W : world) (H : heap) (s t a : nat) (bs : list bound) (ipixs : list nat) (pe : option hpentry) (acc : list triple)
+  : option (list triple) * option hpentry :=
+  match ipixs with
+  | [] => (Some (rev acc), pe)
+  | i :: rest =>
+    match hpixel_hit H pe i bs with
+    | Some tr => hpix_loop P W H s t a bs rest pe (tr :: acc)
+    | None =>
+      match axis_of W s t i bs with
+      | None => (None, pe)
+      | Some tr => hpix_loop P W H s t a bs rest (hpixel_store pe s t i tr (mk_bkey P a bs (tdims tr))) (tr :: acc)
+      end
+    end
+  end.
+
+(* compute_fixed_resolution_buffer called with the caller's objects; the heap does not change during the call *)
+Definition hstep (P : policy) (W : world) (H : heap) (st : hcstate) (r : hrequest) : outcome * hcstate :=
+  let q := resolve H r in
+  match prechecks W q with
+  | Some e => (Err e, st)
+  | None =>
+    let bs := map norm_bound (rbounds q) in
+    let s := hr_s r in let t := hr_t r in
+    match hr_cache r with
+    | None => (frb_core W s t (rwhat q) (hr_bc r) bs, st)
+    | Some cid =>
+      let ae := fst (st cid) in
+      let pe := snd (st cid) in
+      match harray_hit H ae s t (hr_w r) (hr_bc r) bs with
+      | Some (sh, vals) => (OkArr sh vals, st)
+      | None =>
+        let pe1 := match pe with
+                   | Some p => if Nat.eqb (hp_s p) s && Nat.eqb (hp_t p) t then Some p else None
+                   | None => None
+                   end in
+        match hpix_loop P W H s t (hr_b r) bs (seq 0 (ndim W s)) pe1 [] with
+        | (None, pe2) => (Err E_IncompatibleAttribute, hupd st cid (ae, pe2))
+        | (Some axes, pe2) =>
+          match assemble W s t (rwhat q) (hr_bc r) bs axes with
+          | Err e => (Err e, hupd st cid (ae, pe2))
+          | OkArr sh vals =>
+            let k := mk_bkey P (hr_b r) bs (flat_map tdims axes) in
+            (OkArr sh vals, hupd st cid (Some (mkHA s k t (mk_wkey P H (hr_w r)) (hr_bc r) sh vals), pe2))
+          end
+        end
+      end
+    end
+  end.
+
+Definition apply_mut (H : heap) (o : hop) : heap :=
+  match o with
+  | HSetBound a i b => set_bounds H a (set_nth i b (hb H a))
+  | HSetAll a bs => set_bounds H a bs
+  | HSetState a k => set_state H a k
+  | HReq _ => H
+  end.
+
+(* a history: in-place changes of the caller's objects interleaved with requests; the results of the requests *)
+Fixpoint run_hist (P : policy) (W : world) (H : heap) (st : hcstate) (h : list hop) : list outcome :=
+  match h with
+  | [] => []
+  | HReq r :: rest => let '(o, st') := hstep P W H st r in o :: run_hist P W H st' rest
+  | o :: rest => run_hist P W (apply_mut H o) st rest
+  end.
+(* the same history through the function without cache_id *)
+Fixpoint plain_hist (W : world) (H : heap) (h : list hop) : list outcome :=
+  match h with
+  | [] => []
+  | HReq r :: rest => frb W (resolve H r) :: plain_hist W H rest
+  | o :: rest => plain_hist W (apply_mut H o) rest
+  end.
+
 (* ---------- wire ---------- *)
 Definition dec_q (t : tree) : Q :=
   match t with
@@ -407,6 +576,37 @@ Definition dec_req (t : tree) : request :=
   | _ => mkReq 0 0 [] WNone true None
   end.
 
+Definition dec_hwhat (t : tree) : hwhat :=
+  match t with
+  | T 1 (k :: _) => HAttr (nat_of k)
+  | T 2 (a :: _) => HState (nat_of a)
+  | T 3 (k :: a :: _) => HBoth (nat_of k) (nat_of a)
+  | _ => HNone
+  end.
+Definition dec_hreq (t : tree) : hrequest :=
+  match t with
+  | T _ [s; t'; b; w; T bc _; c] =>
+    mkHReq (nat_of s) (nat_of t') (nat_of b) (dec_hwhat w) (negb (bc =? 0)%Z)
+           (match c with T 1 (k :: _) => Some (nat_of k) | _ => None end)
+  | _ => mkHReq 0 0 0 HNone true None
+  end.
+Definition dec_hop (t : tree) : hop :=
+  match t with
+  | T 1 [a; i; b] => HSetBound (nat_of a) (nat_of i) (dec_bound b)
+  | T 2 [a; bs] => HSetAll (nat_of a) (map dec_bound (kids bs))
+  | T 3 [a; k] => HSetState (nat_of a) (nat_of k)
+  | T 4 [r] => HReq (dec_hreq r)
+  | _ => HReq (mkHReq 0 0 0 HNone true None)
+  end.
+Definition dec_heap (t : tree) : heap :=
+  match t with
+  | T _ [bl; sl] =>
+    let bls := map (fun x => map dec_bound (kids x)) (kids bl) in
+    let sls := dec_nats sl in
+    mkHeap (fun a => nth a bls []) (fun a => nth a sls 0%nat)
+  | _ => mkHeap (fun _ => []) (fun _ => 0%nat)
+  end.
+
 Definition enc_val (v : option Z) : tree := match v with None => T 0 [] | Some z => T 1 [leaf z] end.
 Definition enc_outcome (o : outcome) : tree :=
   match o with
@@ -423,5 +623,11 @@ Definition run_case (t : tree) : tree :=
     T 0 [T 0 (map enc_outcome (run_cached W empty_state rs)); T 0 (map (fun r => enc_outcome (frb W r)) rs)]
   (* rounding alone *)
   | T 2 [q] => leaf (round_half_even (dec_q q))
+  (* a world, the caller's objects and a history of in-place changes and requests *)
+  | T 3 [w; hp; ops] =>
+    let W := dec_world w in
+    let H := dec_heap hp in
+    let h := map dec_hop (kids ops) in
+    T 0 [T 0 (map enc_outcome (run_hist glue_policy W H empty_hstate h)); T 0 (map enc_outcome (plain_hist W H h))]
   | _ => err (-2)
   end.
